@@ -123,7 +123,38 @@ def _models(draw, stratum):
     else:
         for i in range(n):
             ms.append(draw(gen.any_model(None, 1, 3, depth=1, customs=(stratum != "shared_names"))))
-        if stratum == "shared_names":
+        if stratum == "shared_names" and draw(st.booleans()):
+            # the models share the TEXT of a form that calls a helper form, and define that helper differently:
+            # what a formula means depends on the file it stands in, not on the files read before
+            import copy
+            cs = draw(gen.custom_forms(3, 2, last_feature="custom"))
+            caller = cs[-1]
+            called = []
+
+            def find(e):
+                if isinstance(e, dict):
+                    if e.get("o") == "custom":
+                        called.append(e["f"])
+                    for x in e.values():
+                        find(x)
+                elif isinstance(e, list):
+                    for x in e:
+                        find(x)
+            find(caller["expr"])
+            k = len(caller["params"]) - 1
+            ps = draw(st.lists(gen.number(0.2, 4), min_size=k, max_size=k))
+            for i, m in enumerate(ms):
+                csi = copy.deepcopy(cs)
+                for f in csi:
+                    if f["name"] == called[0] and i > 0:
+                        f["expr"] = {"o": "+", "a": f["expr"], "b": {"o": "num", "v": 0.5 * i + 1.0}}
+                m["env"]["custom"] = csi
+                pd = {"ranges": [{"m": None, "s": None, "body": {"k": "custom", "name": caller["name"], "p": ps}}]}
+                if m["kind"] == "pair":
+                    m["pair"][0][2] = pd
+                else:
+                    m["embed"][0][1] = pd
+        elif stratum == "shared_names":
             # every model gets custom forms drawn independently but with the SAME names
             names = None
             for m in ms:
